@@ -20,7 +20,7 @@ DEFAULT_PROFILE = dict(
     n_ops=(0, 2, 5, 10, 20, 40), horizon=(5, 10, 10, 20, 40),
     fault_kinds=('fail', 'shutdown', 'restore', 'wo', 'addres', 'block', 'adjust', 'rewire',
                  'offset', 'ct', 'wake', 'trywork'),
-    p_split=0.3, p_nested=0.25, p_trace=0.0, p_fanin=0.5, callbacks=True, starve=True,
+    p_split=0.3, p_nested=0.25, p_trace=0.0, p_rq=0.0, p_fanin=0.5, callbacks=True, starve=True,
     fail_down_bias=0.0,
 )
 
@@ -43,6 +43,8 @@ PROFILES = {
     'c13': dict(kinds=dict(handler=3, proc=7, buffer=2, batcher=0, gates=1, path=1),
                 fault_kinds=('fail', 'shutdown', 'restore', 'wo', 'fail', 'shutdown', 'restore', 'wo', 'block', 'wake', 'offset'),
                 n_ops=(2, 5, 10, 20, 40), p_maintainer=0.8, fail_down_bias=0.3),
+    'c14': dict(p_fanin=0.9, n_sources=(2, 2, 3), n_ops=(0, 2, 5, 10), p_rq=0.6, p_split=0.0, p_trace=0.0,
+                fault_kinds=('fail', 'shutdown', 'restore', 'wo', 'addres', 'block', 'adjust', 'offset', 'ct', 'wake')),
     'c15': dict(p_trace=0.25, p_maintainer=0.7),
     'c16': dict(p_maintainer=0.8, p_batch_source=0.4),
     'c17': dict(kinds=dict(handler=2, proc=2, buffer=3, batcher=6, gates=0.5, path=0.5), p_batch_source=0.7,
@@ -106,6 +108,8 @@ def gen_spec(rng, profile_name='default'):
                 d['res'][rng.choice(sorted(resources))] = 0
         if rng.random() < 0.5:
             d['addv'] = rng.choice((0.5, 1, 2))
+        if rng.random() < P['p_rq']:
+            d['rq'] = True
         if P['callbacks'] and rng.random() < 0.25:
             d['ctcb'] = [rng.choice(CT) for _ in range(rng.randint(2, 3))]
         d['wo'] = {'a': [rng.choice((0, 0.25, 0.5, 1, 2)), rng.choice((0, 0.5, 1, 1, 2)), rng.choice((0, 1, 3))],
